@@ -300,17 +300,7 @@ def parseToks (ws : List String) : Option (List Tok) := ws.mapM parseTok
 
 def insertAt (xs : List Tok) (i : Nat) (x : Tok) : List Tok := xs.take i ++ [x] ++ xs.drop i
 
-def step (stream : String) (_ : Unit) (ws : List String) : Unit × String × String × String :=
-  match ws with
-  | "scen" :: rest =>
-    match parseToks rest with
-    | none => ((), "bad-op", "-", "")
-    | some toks =>
-      let j := judge toks
-      let m := joinC j.results ++ " | " ++ " ; ".intercalate j.steps
-      let sp := "/".intercalate ((j.alts.map joinC).eraseDups)
-      ((), m, sp, " ".intercalate (blame j 0))
-  | "enum" :: idx :: rest =>
+def enumLine (stream : String) (idx : String) (rest : List String) : Unit × String × String × String :=
     match idx.toNat?, parseToks rest with
     | some idx, some toks =>
       if idx ≥ toks.length then ((), "bad-op", "-", "") else
@@ -350,6 +340,22 @@ def step (stream : String) (_ : Unit) (ws : List String) : Unit × String × Str
       ((), " ".intercalate (fields.map (·.1)), " ".intercalate (fields.map (·.2.1)),
         " ".intercalate ((fields.flatMap (·.2.2)).eraseDups))
     | _, _ => ((), "bad-op", "-", "")
+
+def step (stream : String) (_ : Unit) (ws : List String) : Unit × String × String × String :=
+  match ws with
+  | kind :: rest =>
+    if kind != "scen" && kind != "scenq" then
+      match kind, rest with
+      | "enum", idx :: rest => enumLine stream idx rest
+      | _, _ => ((), "bad-op", "-", "")
+    else
+    match parseToks rest with
+    | none => ((), "bad-op", "-", "")
+    | some toks =>
+      let j := judge toks
+      let m := if kind == "scenq" then joinC j.results else joinC j.results ++ " | " ++ " ; ".intercalate j.steps
+      let sp := "/".intercalate ((j.alts.map joinC).eraseDups)
+      ((), m, sp, " ".intercalate (blame j 0))
   | _ => ((), "bad-op", "-", "")
 
 def stream : Stream := { σ := Unit, init := (), step := step "crash" }
